@@ -10,6 +10,7 @@ HEADER = """
 import types
 import pandas as pd
 import pandera as pa
+from typing import Optional
 from pandera.typing import DataFrame, Series
 
 SCHEMA = pa.DataFrameSchema({"a": pa.Column(int, [pa.Check.ge(0), pa.Check.le(10)], coerce=True)})
@@ -46,6 +47,9 @@ def function_src(sc: Dict[str, Any]) -> str:
     deco = sc["deco"]
     sig = (SIG_T if deco == "check_types" else SIG)[sc["sig"]]
     ret = " -> DataFrame[M]" if deco == "check_types" else ""
+    if sc["getter"] == "annotation_optional":
+        sig = sig.replace("DataFrame[M]", "Optional[DataFrame[M]]")
+        ret = " -> Optional[DataFrame[M]]"
     kexpr = KEXPR[sc["sig"]]
     if deco == "check_input":
         result = "('R', %s)" % kexpr
@@ -170,8 +174,8 @@ def observe_deco(vec: Dict[str, Any]) -> Dict[str, Any]:
                 else:
                     g = sc["getter"]
                     try:
-                        frame = res if g in ("none", "name", "annotation") else res[0] if g == "int" else res["out"] if g == "str" else res.out
-                        rest_ok = True if g in ("none", "name", "annotation") else (res[1] == expected_k) if g == "int" else \
+                        frame = res if g in ("none", "name", "annotation", "annotation_optional") else res[0] if g == "int" else res["out"] if g == "str" else res.out
+                        rest_ok = True if g in ("none", "name", "annotation", "annotation_optional") else (res[1] == expected_k) if g == "int" else \
                             (res["k"] == expected_k) if g == "str" else (res.k == expected_k)
                     except Exception as e:  # noqa: BLE001
                         frame, rest_ok = None, False
